@@ -457,10 +457,15 @@ def run_fresh(ctx, rng, idx, X, mname, k, iters, form, seed, inds, props):
     mine = result_digest(res)
     env = dict(os.environ)
     env.pop('LD_PRELOAD', None)
+    # every other fresh interpreter runs with -O (assert statements and
+    # __debug__ blocks compiled away), as deployments do
+    opt = ['-O'] if idx % 2 else []
+    if opt:
+        ctx.count('fresh_processes_with_O')
     p = subprocess.run(
-        [sys.executable, '-m', 'vf.props.c09', str(ctx.spec['seed']),
-         str(idx)], env=env, stdout=subprocess.PIPE, stderr=subprocess.PIPE,
-        text=True, timeout=300)
+        [sys.executable] + opt + ['-m', 'vf.props.c09', str(ctx.spec['seed']),
+                                  str(idx)], env=env, stdout=subprocess.PIPE,
+        stderr=subprocess.PIPE, text=True, timeout=300)
     ctx.count('fresh_process_pairs')
     ctx.count('sweeps_checked', 0)
     try:
